@@ -49,6 +49,8 @@ class ConclusionSelector(LogicalOperator, ABC):
     def _reset_only_my_cache_(self) -> None:
         super()._reset_only_my_cache_()
         self.concluded_before = {True: {}, False: {}}
+        # what was selected for the row at which an evaluation was closed or abandoned is not selected for the next one.
+        self._conclusion_.clear()
 
     def _copy_expression_(self, postfix: str) -> SymbolicExpression:
         cp = super()._copy_expression_(postfix)
